@@ -384,7 +384,7 @@ Section RT7.
         - exists R_invert. repeat split; [exact H_inv | unfold map_prefix; rewrite H_pinv; reflexivity].
         - discriminate. }
       destruct Hops as (r0 & Er & Hops & Hmap). rewrite Er.
-      eapply E_prefix; [exact Hops | | exact Hmap | exact HL].
+      eapply E_prefix; [reflexivity | exact Hops | | exact Hmap | exact HL].
       apply operand7; [exact (IHe Hwe) | | apply loop_stops7; eapply follows_le7; [exact Hf | exact Hrle]].
       intro E. split; [|split; [lia|]].
       + apply pol_U in E. lia.
@@ -395,7 +395,7 @@ Section RT7.
       eapply post_operand7; [exact (IHe Hwf) | exact Hpre | apply pol_P | reflexivity | exact H_fact | exact pre_lt_fact | exact Hb | apply Po_fact | exact HL].
     - (* ESpread *)
       cbn [wf] in Hwf. cbn [app].
-      eapply E_prefix; [exact H_spr | | unfold map_prefix; rewrite H_pspr; reflexivity | exact HL].
+      eapply E_prefix; [reflexivity | exact H_spr | | unfold map_prefix; rewrite H_pspr; reflexivity | exact HL].
       eapply E_primary; [reflexivity | apply P_expr; apply items_of_RT7; exact (IHe Hwf) |].
       apply loop_stops7. exact Hf.
   Qed.
